@@ -33,6 +33,7 @@ PROPS = {
             {"harness": "H_C02_snapshot", "params": {"ascii": 1, "n0lo": 7, "n0hi": 7, "n1lo": 3, "n1hi": 3}},
             {"harness": "H_C02_snapshot", "params": {"ascii": 1, "n0lo": 3, "n0hi": 3, "n1lo": 7, "n1hi": 7}},
             {"harness": "H_C02_struct", "quick": {"lines": 2}, "thorough": {"lines": 2}},
+            {"harness": "H_C02_standalone", "quick": {"n": 3}, "thorough": {"n": 4}},
         ],
         "bounds": {"quick": "MatchSnapshot; ASCII texts <= 3 bytes each; arbitrary bytes <= 2 each; 7-byte vs 3-byte ASCII texts (escape token vs terminator)",
                    "thorough": "ASCII texts <= 5 bytes each; arbitrary bytes <= 2 each; 7 vs 3"},
@@ -94,12 +95,13 @@ PROPS = {
         "runs": [
             {"harness": "H_C12_immutable", "quick": {"calls": 2}, "thorough": {"calls": 3}},
             {"harness": "H_C12_concurrent", "stress": 2000, "quick": {"preempt": 1}, "thorough": {"preempt": 2}},
+            {"harness": "H_C12_independent", "stress": 20000, "quick": {"preempt": 2}, "thorough": {"preempt": 3}},
             {"harness": "H_C11_location", "params": {"percent": 0}, "quick": {"n": 0}, "thorough": {"n": 1}},
         ],
-        "bounds": {"quick": "every subset of {Filename, Ext, Update, JSON} options; sequences of 1..2 of the five entry points through one shared Config; two goroutines issuing any pair of entry points through one shared Config, all schedules with <= 1 preemption",
+        "bounds": {"quick": "every subset of {Filename, Ext, Update, JSON} options; sequences of 1..2 of the five entry points through one shared Config; two goroutines issuing any pair of entry points through one shared Config, all schedules with <= 1 preemption; two Configs with different JSON options used by two goroutines at once (MatchJSON or MatchStandaloneJSON), stores to the library's package-level variables being scheduling points, <= 2 preemptions",
                    "thorough": "sequences of 1..3 entry points"},
         "assumptions": COMMON_ASSUME,
-        "outside": ["interleavings between plain memory accesses (the scheduler interleaves at file-system and lock operations; writes to the Config are caught by the write monitor in any schedule)"],
+        "outside": ["interleavings between plain memory accesses to heap objects (the scheduler interleaves at file-system and lock operations, and in H_C12_independent at stores to package-level variables; writes to the Config are caught by the write monitor in any schedule)"],
     },
     "C17": {
         "runs": [
@@ -153,18 +155,18 @@ PROPS = {
     },
     "C07": {
         "runs": [
-            {"harness": "H_clean", "params": {"prop": 7}, "quick": {"count": 2, "n": 0}, "thorough": {"count": 3, "n": 1, "n0": 1}},
+            {"harness": "H_clean", "params": {"prop": 7}, "quick": {"count": 2, "n": 0}, "thorough": {"count": 2, "n": 1, "allsubsets": 1}, "timeout_s": {"thorough": 1800}},
             {"harness": "H_C10_bodies", "quick": {"lines": 2}, "thorough": {"lines": 3}},
         ],
         "bounds": {"quick": "program: TestA (2 calls), TestB (1 call), TestS (1 standalone call), -count 1..2; directory with optional stale ordinal, stale test, "
                             "stale standalone file, stale multi-entry file, 3 layouts; CI x UPDATE_SNAPS (<= 5 bytes) x sort; one live body symbolic (<= 1 byte)",
-                   "thorough": "-count 1..3, all bodies symbolic (<= 1 byte)"},
+                   "thorough": "every subset of the optional features, one symbolic body"},
         "assumptions": COMMON_ASSUME + ["flag test.run is empty (no -run filter; filtered runs are C08)"],
         "outside": ["test names that do not start with `Test` (Benchmark*/Fuzz* satisfy the testingT interface; Clean does not recognise their entries)"],
     },
     "C09": {
         "runs": [
-            {"harness": "H_clean", "params": {"prop": 9}, "reach": ["stale-entries", "second-file-stale"], "quick": {"count": 2, "n": 0}, "thorough": {"count": 3, "n": 1, "n0": 1}},
+            {"harness": "H_clean", "params": {"prop": 9}, "reach": ["stale-entries", "second-file-stale"], "quick": {"count": 2, "n": 0}, "thorough": {"count": 2, "n": 1, "allsubsets": 1}, "timeout_s": {"thorough": 1800}},
             {"harness": "H_C08_skip", "reach": ["skip-mode"], "quick": {"lit": 1}, "thorough": {"lit": 2}},
         ],
         "bounds": {"quick": "same program and directory shapes as C07; all three Clean modes incl. sort requested on an unsorted file with stale entries",
